@@ -133,7 +133,8 @@ CHECKS = {
         "technique": "property-based testing (rapid) on a fake clock (testing/synctest) with exact time arithmetic as oracle",
         "rule": ("kinds 'sleep' and 'ticker' (fake clock) and 'sleep-old-timers' (real clock, asynctimerchan=1: sequences of 2-30 SleepContext calls, some cancelled within 100 us of their own timer firing; nil needs >= d of measured time; non-trivial = at least 3 calls). non-trivial: sleep = a deadline strictly inside (0,d), a mid-sleep cancel, or deadline+cancel; ticker = in-domain with jitter in {0, d-1} or a Reset/Stop in the timeline; distinct = distinct plan JSON"),
         "assumptions": ["testing/synctest fake clock", "rapid v1.3.0; go1.26.8"],
-        "jobs": [{"pkg": "c20time", "kinds": ["sleep", "ticker"], "scale_thorough": 10, "shards_thorough": 16},
+        "jobs": [{"pkg": "c20time", "run": "TestSleepContext|TestJitterTicker", "kinds": ["sleep", "ticker"], "scale_thorough": 10, "shards_thorough": 16},
+                 {"pkg": "c20time", "race": True, "run": "TestTickerRace", "kinds": ["ticker-race"], "scale_thorough": 4, "shards_thorough": 4},
                  {"pkg": "c20old", "kinds": ["sleep-old-timers"], "scale_thorough": 4, "shards_thorough": 4}],
     },
     "C16": {
@@ -170,8 +171,9 @@ CHECKS = {
         "technique": "property-based testing (rapid) of generated actor scripts in testing/synctest bubbles; history-invariant oracle",
         "rule": ("kinds pipe (scripted plans: buffer in {0,1,2,5}, 1-3 senders, 1-24 steps incl. tryburst = all senders TrySend at once, contexts that end by cancel or - 'deadlines' plans - by deadline on the fake clock and may be reused after they ended, + drain epilogue) and pipe-storm (500-3000 short-lived pipes per case on real goroutines: 1-4 values then Close after a swept busy delay, blocking or ended-context-polling consumer; every storm case counts as non-trivial); pipe plans: non-trivial = Close called while accepted values were still buffered (buffer >= 1), or Sends of two sender actors overlapped, or a Send was blocked when the receiver closed; distinct = distinct plan JSON; R=5/20 executions each"),
         "assumptions": ["testing/synctest durable-block detection", "logical stamps taken by the actors bracket the library calls", "rapid v1.3.0; go1.26.8"],
-        "jobs": [{"pkg": "c10pipe", "kinds": ["pipe", "pipe-storm"], "scale_thorough": 8, "shards_thorough": 16, "replay_reps": 200},
-                 {"pkg": "c10pipe", "race": True, "kinds": ["pipe", "pipe-storm"], "scale_quick": 0.15, "scale_thorough": 2, "shards_thorough": 4, "replay_reps": 20}],
+        "jobs": [{"pkg": "c10pipe", "run": "TestPipeParked", "kinds": ["pipe-parked"], "scale_thorough": 4, "shards_thorough": 2},
+                 {"pkg": "c10pipe", "run": "TestPipe$|TestPipeStorm", "kinds": ["pipe", "pipe-storm"], "scale_thorough": 8, "shards_thorough": 16, "replay_reps": 200},
+                 {"pkg": "c10pipe", "race": True, "run": "TestPipe$|TestPipeStorm", "kinds": ["pipe", "pipe-storm"], "scale_quick": 0.15, "scale_thorough": 2, "shards_thorough": 4, "replay_reps": 20}],
     },
     "C12": {
         "level": "exploration",
@@ -182,8 +184,8 @@ CHECKS = {
         "technique": "property-based testing (rapid) of generated producer/consumer scripts in testing/synctest bubbles; multiset/order/termination oracle",
         "rule": ("kinds chans-merge, chans-merge-iface (chan error carrying nil values), replicate, stream-merge, stream-merge-burst (many rounds of inputs that end at the same instant). non-trivial = >= 2 non-empty inputs of different lengths (one closes while another still has values), or arity in {0,1}, or an early Close (stream.Merge); replicate: >= 2 destinations and >= 2 values, or zero destinations; distinct = distinct plan JSON; R=3/10"),
         "assumptions": ["testing/synctest durable-block detection", "rapid v1.3.0; go1.26.8"],
-        "jobs": [{"pkg": "c12merge", "kinds": ["chans-merge", "chans-merge-iface", "replicate", "stream-merge", "stream-merge-burst"], "scale_thorough": 10, "shards_thorough": 16, "replay_reps": 30},
-                 {"pkg": "c12merge", "race": True, "kinds": ["chans-merge", "chans-merge-iface", "replicate", "stream-merge", "stream-merge-burst"], "scale_quick": 0.15, "scale_thorough": 2, "shards_thorough": 4, "replay_reps": 20}],
+        "jobs": [{"pkg": "c12merge", "kinds": ["chans-merge", "chans-merge-iface", "replicate", "stream-merge", "stream-merge-burst", "chans-merge-shared", "stream-merge-error-storm"], "scale_thorough": 10, "shards_thorough": 16, "replay_reps": 30},
+                 {"pkg": "c12merge", "race": True, "kinds": ["chans-merge", "chans-merge-iface", "replicate", "stream-merge", "stream-merge-burst", "chans-merge-shared", "stream-merge-error-storm"], "scale_quick": 0.15, "scale_thorough": 2, "shards_thorough": 4, "replay_reps": 20}],
     },
     "C13": {
         "level": "exploration",
